@@ -4,7 +4,7 @@
    token stream from the real implementation. *)
 From Coq Require Import String Ascii.
 From Radius Require Import Base.Bytes Base.Guard Base.Res Gen.Consts
-  Model.Attrs Model.Packet Spec.C09.
+  Model.Attrs Model.Packet Spec.C09 Spec.C01 Spec.C03.
 From Radius Require Import Crypto.MD5.
 Open Scope list_scope.
 Open Scope nat_scope.
@@ -13,11 +13,23 @@ Inductive tok := TI (z : Z) | TB (b : bytes).
 
 Definition s2b (s : string) : bytes := map N_of_ascii (list_ascii_of_string s).
 
+Definition name_is (name : bytes) (s : string) : bool := beq name (s2b s).
+
 (* result classes *)
 Definition t_res {A} (r : res A) (f : A -> list tok) : list tok :=
   match r with
   | Ok a => TI 0 :: f a
   | Err e => [TI 1; TI (Z.of_N e)]
+  | Panic => [TI 2]
+  | OutOfFuel => [TI 3]
+  end.
+
+(* spec oracles report "refused" without an error class: the statements only
+   say that an error is returned *)
+Definition t_res_s {A} (r : res A) (f : A -> list tok) : list tok :=
+  match r with
+  | Ok a => TI 0 :: f a
+  | Err e => [TI 1]
   | Panic => [TI 2]
   | OutOfFuel => [TI 3]
   end.
@@ -70,8 +82,8 @@ Definition s_after (l : attrs) : list tok :=
      [TI 0; TI (Z.of_nat (length w))] ++
      (if 20 + length w <=? 4096
       then [TI 0; TB ([1; 0] ++ be_enc 2 (N.of_nat (20 + length w)) ++ repeat 0 16 ++ w)%N]
-      else [TI 1; TI 6])
-   else [TI 1; TI 5; TI 1; TI 5]).
+      else [TI 1])
+   else [TI 1; TI 1]).
 
 Fixpoint s_trace (l : attrs) (os : list op) : list tok :=
   match os with
@@ -95,13 +107,52 @@ Definition run_attrs (spec : bool) (bs : list bytes) (zs : list Z) : list tok :=
   | [] => [TI (-98)]
   end.
 
-Definition name_is (name : bytes) (s : string) : bool := beq name (s2b s).
+(* ---- C01 / C03 ---- *)
+Definition t_packet (p : packet) : list tok :=
+  [TI (code p); TI (Z.of_N (ident p)); TB (auth p); TB (secret p)] ++ t_attrs (pattrs p).
+Definition t_tuple (t : Z * N * bytes * bytes * attrs) : list tok :=
+  let '(c, i, au, s, at_) := t in [TI c; TI (Z.of_N i); TB au; TB s] ++ t_attrs at_.
+
+Definition arg_packet (bs : list bytes) (zs : list Z) : packet :=
+  match zs, bs with
+  | c :: i :: n :: zs', au :: sec :: bs' =>
+    let '(l, _) := take_attrs (Z.to_nat n) zs' bs' in mkpacket c (Z.to_N i) au sec l
+  | _, _ => mkpacket 0 0 [] [] []
+  end.
+
+Definition b1 (bs : list bytes) : bytes := nth 0 bs [].
+Definition b2 (bs : list bytes) : bytes := nth 1 bs [].
+Definition b3 (bs : list bytes) : bytes := nth 2 bs [].
+Definition z1 (zs : list Z) : Z := nth 0 zs 0%Z.
+Definition tbool (b : bool) : list tok := [TI (if b then 1 else 0)].
+
+Definition dispatch_c01 (name : bytes) (bs : list bytes) (zs : list Z) : option (list tok) :=
+  if name_is name "m.parse" then Some (t_res (parse (b1 bs) (b2 bs)) t_packet)
+  else if name_is name "s.parse" then Some (t_res_s (spec_parse (b1 bs) (b2 bs)) t_tuple)
+  else if name_is name "m.parse_attrs" then Some (t_res (parse_attrs (b1 bs)) t_attrs)
+  else if name_is name "s.parse_attrs" then Some (t_res_s (spec_tlv_dec (b1 bs)) t_attrs)
+  else if name_is name "m.marshal" then Some (t_res (marshal (arg_packet bs zs)) (fun b => [TB b]))
+  else if name_is name "s.marshal" then
+    let p := arg_packet bs zs in
+    Some (t_res_s (spec_marshal (code p) (ident p) (auth p) (pattrs p)) (fun b => [TB b]))
+  else if name_is name "m.encode" then Some (t_res (encode md5 (arg_packet bs zs)) (fun b => [TB b]))
+  else if name_is name "s.encode" then
+    let p := arg_packet bs zs in
+    Some (t_res_s (spec_encode md5 (code p) (ident p) (auth p) (secret p) (pattrs p)) (fun b => [TB b]))
+  else if name_is name "m.isresp" then Some (tbool (is_authentic_response md5 (b1 bs) (b2 bs) (b3 bs)))
+  else if name_is name "s.isresp" then Some (tbool (spec_is_authentic_response md5 (b1 bs) (b2 bs) (b3 bs)))
+  else if name_is name "m.isreq" then Some (tbool (is_authentic_request md5 (b1 bs) (b2 bs)))
+  else if name_is name "s.isreq" then Some (tbool (spec_is_authentic_request md5 (b1 bs) (b2 bs)))
+  else if name_is name "m.new" then Some (t_res (new_packet (z1 zs) (b1 bs) (b2 bs)) t_packet)
+  else if name_is name "m.response" then Some (t_packet (response (arg_packet bs (skipn 1 zs)) (z1 zs)))
+  else None.
 
 Definition dispatch (name : bytes) (bs : list bytes) (zs : list Z) : list tok :=
   if name_is name "m.attrs_run" then run_attrs false bs zs
   else if name_is name "s.attrs_run" then run_attrs true bs zs
   else if name_is name "md5" then match bs with b :: _ => [TB (md5 b)] | [] => [] end
-  else [TI (-97)].
+  else match dispatch_c01 name bs zs with Some t => t | None =>
+  [TI (-97)] end.
 
 Require Extraction.
 Require Import ExtrOcamlBasic.
